@@ -10,18 +10,21 @@ byName: String }`) with
 ```graphql
 query Q($n: Int = 7, $r: Float = 3, $rs: [Float!]! = 1.5, $b: Boolean! = true, $i: ID = 9, $s: String = "hi",
         $w: Date = "2020-01-01", $d: [[Dir!]] = UP,
-        $f: Filter = {name: "a", tags: "t", dir: DOWN, next: {name: "b"}, sel: {byId: 5}}, $g: [Int] = [1, 2], $k: Int) { x }
+        $f: Filter = {name: "a", when: null, tags: "t", dir: DOWN, next: {name: "b"}, sel: {byId: 5}}, $g: [Int] = [1, 2],
+        $z: Int = null, $zs: [Int] = [1, null], $k: Int) { x }
 ```
 every literal kind: `bool`, `str`, `int`, `float` (from a float token and from an integer at `Float`), `str` from an
 integer at `ID`, `some` / `none`, `vec` (a list, a coerced single value, a doubly coerced one), `box`, `struct`,
-`path`, `variant`.
+`path`, `variant`; `null` at the three kinds of nullable position (the variable itself, a list element, a member).
 
 * `dx_bodies`: the bodies `defaultBodies` computes; `dx_hyps` + `dx_valid`: every hypothesis of `default_typechecks` /
   `default_value_correct` holds for every default; `dx_typechecks`, `dx_value_correct`: the theorems on the instance;
   `dx_run`: the model's own evaluation — each body type-checks and is written as the coerced canonical default.
 * negative witnesses (`nx_*`): what an invalid default gives — see each statement.  Two are NOT rejected in any way:
-  an unknown member of an input object literal is dropped silently (`nx_unknown_field_dropped`), and `null` — a valid
-  default for a nullable type — makes the generator panic (`null_default_panics`).
+  ONE is not rejected in any way: an unknown member of an input object literal is dropped silently
+  (`nx_unknown_field_dropped`).  `null_default_panics`: since the repair of the generator `null` at a nullable position
+  is `None` — correct, part of the instance — while `null` at a non-null position (an invalid default) and a variable
+  inside a default still make it panic.
 -/
 namespace GqlVerif
 namespace C04D
@@ -59,8 +62,8 @@ def bodiesEqB : List (String × LitExpr) → List (String × LitExpr) → Bool :
 /-! ## the instance -/
 
 def dxFilter : Value :=
-  .obj [("name", .str "a"), ("tags", .str "t"), ("dir", .enum "DOWN"), ("next", .obj [("name", .str "b")]),
-        ("sel", .obj [("byId", .int 5)])]
+  .obj [("name", .str "a"), ("when", .null), ("tags", .str "t"), ("dir", .enum "DOWN"),
+        ("next", .obj [("name", .str "b")]), ("sel", .obj [("byId", .int 5)])]
 
 def dxVars : List RVariable :=
   [{ opIdx := 0, name := "n", default := some (.int 7), ty := { id := .scalar 2, quals := [] } },
@@ -74,6 +77,8 @@ def dxVars : List RVariable :=
    { opIdx := 0, name := "d", default := some (.enum "UP"), ty := { id := .enum 0, quals := [.list, .list, .required] } },
    { opIdx := 0, name := "f", default := some dxFilter, ty := { id := .input 0, quals := [] } },
    { opIdx := 0, name := "g", default := some (.list [.int 1, .int 2]), ty := { id := .scalar 2, quals := [.list] } },
+   { opIdx := 0, name := "z", default := some .null, ty := { id := .scalar 2, quals := [] } },
+   { opIdx := 0, name := "zs", default := some (.list [.int 1, .null]), ty := { id := .scalar 2, quals := [.list] } },
    { opIdx := 0, name := "k", default := none, ty := { id := .scalar 2, quals := [] } }]
 
 def dxQuery : Query :=
@@ -103,7 +108,9 @@ def dxBodies : List (String × LitExpr) :=
    ("default_f", .some (.struct "Filter"
       [("name", .str "a"), ("when", .none), ("dir", .some (.path "Dir" "DOWN")), ("tags", .some (.vec [.str "t"])),
        ("next", .box (.some dxInner)), ("sel", .some (.variant "Sel" "byId" (.str "5")))])),
-   ("default_g", .some (.vec [.some (.int 1), .some (.int 2)]))]
+   ("default_g", .some (.vec [.some (.int 1), .some (.int 2)])),
+   ("default_z", .none),
+   ("default_zs", .some (.vec [.some (.int 1), .none]))]
 
 set_option maxRecDepth 100000 in
 /-- the bodies, every literal kind -/
@@ -127,7 +134,7 @@ theorem dx_hyps :
   · have : ∀ v ∈ dxVars, C02.Relevant v.ty.id := by
       intro v hv
       simp only [dxVars, List.mem_cons, List.not_mem_nil, or_false] at hv
-      rcases hv with rfl | rfl | rfl | rfl | rfl | rfl | rfl | rfl | rfl | rfl | rfl <;> trivial
+      rcases hv with rfl | rfl | rfl | rfl | rfl | rfl | rfl | rfl | rfl | rfl | rfl | rfl | rfl <;> trivial
     intro v hv
     exact this v (List.mem_filter.mp hv).1
   · decide +kernel
@@ -174,7 +181,7 @@ theorem dx_valid : ∀ v ∈ dxCtx.q.opVariables 0, defaultOkB Leaves.graphql ex
   have hall : ∀ v ∈ dxVars, defaultOkB Leaves.graphql exSchema v = true := by
     intro v hv
     simp only [dxVars, List.mem_cons, List.not_mem_nil, or_false] at hv
-    rcases hv with rfl | rfl | rfl | rfl | rfl | rfl | rfl | rfl | rfl | rfl | rfl
+    rcases hv with rfl | rfl | rfl | rfl | rfl | rfl | rfl | rfl | rfl | rfl | rfl | rfl | rfl
     · decide +kernel
     · decide +kernel
     · -- `$rs: [Float!]! = 1.5`: the float token
@@ -184,6 +191,8 @@ theorem dx_valid : ∀ v ∈ dxCtx.q.opVariables 0, defaultOkB Leaves.graphql ex
       have h2 : kindOk exSchema (.scalar 3) (.float "1.5") = true := by simp [kindOk, dx_float_tok]
       have h3 : valueDepth (.float "1.5") < 64 := by decide
       simp only [defaultOkB, h1, h2, h3, decide_true, Bool.and_self]
+    · decide +kernel
+    · decide +kernel
     · decide +kernel
     · decide +kernel
     · decide +kernel
@@ -243,18 +252,18 @@ def dxExpected : List Json :=
          ("next", .obj [("name", .str "b"), ("when", .null), ("dir", .null), ("tags", .null), ("next", .null),
                         ("sel", .null)]),
          ("sel", .obj [("byId", .str "5")])],
-   .arr [.int 1, .int 2]]
+   .arr [.int 1, .int 2], .null, .arr [.int 1, .null]]
 
 set_option maxRecDepth 100000 in
 /-- **the model's own run**: each body type-checks and is written as the expected JSON (the two `Float` variables
     are left to `dx_value_correct` + `dx_expected`: `String.toInt?`, inside `floatJson`, does not reduce in the kernel) -/
-theorem dx_run : (((dxVars.take 10).zip dxExpected).filter (fun p => p.1.ty.id != .scalar 3)).all
+theorem dx_run : (((dxVars.take 12).zip dxExpected).filter (fun p => p.1.ty.id != .scalar 3)).all
     (fun p => runDefault dxCtx dxEnv p.1 p.2) = true := by
   decide +kernel
 
 set_option maxRecDepth 100000 in
 /-- the right-hand sides of `dx_value_correct`, computed: `canon (coerce (valueJson default))` is `dxExpected` -/
-theorem dx_expected : ((dxVars.take 10).zip dxExpected).all (fun p =>
+theorem dx_expected : ((dxVars.take 12).zip dxExpected).all (fun p =>
     match p.1.default with
     | none => false
     | some d => jsonEqB (canon exSchema false p.1.ty.id (gty p.1.ty) (coerce exSchema p.1.ty.id (gty p.1.ty) (valueJson d)))
@@ -338,18 +347,36 @@ theorem nx_unknown_field_dropped :
          | none => false)
      | _, _ => false) = true := by decide +kernel
 
+def isOkLit (expected : LitExpr) : Outcome LitExpr → Bool
+  | .ok lit => litEqB lit expected
+  | .error _ => false
+
 set_option maxRecDepth 100000 in
-/-- **`null`, a valid default for a nullable type, makes the generator panic** — `$z: Int = null`,
-    `$z: [Int] = [1, null]`, `$f: Filter = {name: "a", when: null}` — as does a variable inside a default (invalid:
-    a default is a constant) -/
+/-- **`null`** (restated after the repair of the generator).  At a nullable position — the variable itself
+    (`$z: Int = null`), a list element (`$zs: [Int] = [1, null]`), a member (`{name: "a", when: null}`), the element
+    position of an invalid list (`$z: Int = [null]`) — it is valid and rendered as `None`: CORRECT, see `z`, `zs`,
+    `f.when` of the instance (`dx_typechecks`, `dx_value_correct`, `dx_run`).  At a NON-NULL position —
+    `$z: Int! = null`, `$zs: [Int!] = [1, null]`, `{name: null}` (`name: String!`), the member of a `@oneOf` literal
+    `{byId: null}` — it is invalid (`validCB` rejects) and the generator still **panics**; as does a variable inside a
+    default (invalid: a default is a constant) -/
 theorem null_default_panics :
+    -- nullable positions: `None`
     validCB Leaves.graphql exSchema 20 (.scalar 2) false (.named "") (valueJson .null) = true ∧
-    isPanic "null as default value" (nxLit .null (.scalar 2) []) = true ∧
+    isOkLit .none (nxLit .null (.scalar 2) []) = true ∧
     validCB Leaves.graphql exSchema 20 (.scalar 2) false (.list (.named "")) (valueJson (.list [.int 1, .null])) = true ∧
-    isPanic "null as default value" (nxLit (.list [.int 1, .null]) (.scalar 2) [.list]) = true ∧
-    isPanic "null as default value" (nxLit (.obj [("name", .str "a"), ("when", .null)]) (.input 0) []) = true ∧
+    isOkLit (.some (.vec [.some (.int 1), .none])) (nxLit (.list [.int 1, .null]) (.scalar 2) [.list]) = true ∧
+    isOkLit (.some (.vec [.none])) (nxLit (.list [.null]) (.scalar 2) []) = true ∧
+    -- non-null positions: invalid, and a panic
+    validCB Leaves.graphql exSchema 20 (.scalar 2) false (.nonNull (.named "")) (valueJson .null) = false ∧
+    isPanic "null as default value" (nxLit .null (.scalar 2) [.required]) = true ∧
+    validCB Leaves.graphql exSchema 20 (.scalar 2) false (.list (.nonNull (.named "")))
+      (valueJson (.list [.int 1, .null])) = false ∧
+    isPanic "null as default value" (nxLit (.list [.int 1, .null]) (.scalar 2) [.list, .required]) = true ∧
+    isPanic "null as default value" (nxLit (.obj [("name", .null)]) (.input 0) []) = true ∧
+    isPanic "null as default value" (nxLit (.obj [("byId", .null)]) (.input 1) []) = true ∧
+    -- a variable
     isPanic "variable in variable" (nxLit (.var "v") (.scalar 2) []) = true := by
-  refine ⟨?_, ?_, ?_, ?_, ?_, ?_⟩ <;> decide +kernel
+  refine ⟨?_, ?_, ?_, ?_, ?_, ?_, ?_, ?_, ?_, ?_, ?_, ?_⟩ <;> decide +kernel
 
 end C04D
 end GqlVerif
